@@ -179,6 +179,7 @@ qb_hdb_handle_put(struct qb_hdb * hdb, qb_handle_t handle_in)
 	}
 
 	if (qb_array_index(hdb->handles, handle, (void **)&entry) != 0 ||
+	    entry->state == QB_HDB_HANDLE_STATE_EMPTY ||
 	    (check != (int32_t) UINT32_MAX && check != entry->check)) {
 		return (-EBADF);
 	}
@@ -210,6 +211,7 @@ qb_hdb_handle_destroy(struct qb_hdb * hdb, qb_handle_t handle_in)
 	}
 
 	if (qb_array_index(hdb->handles, handle, (void **)&entry) != 0 ||
+	    entry->state == QB_HDB_HANDLE_STATE_EMPTY ||
 	    (check != (int32_t) UINT32_MAX && check != entry->check)) {
 		return (-EBADF);
 	}
@@ -236,6 +238,7 @@ qb_hdb_handle_refcount_get(struct qb_hdb * hdb, qb_handle_t handle_in)
 	}
 
 	if (qb_array_index(hdb->handles, handle, (void **)&entry) != 0 ||
+	    entry->state == QB_HDB_HANDLE_STATE_EMPTY ||
 	    (check != (int32_t) UINT32_MAX && check != entry->check)) {
 		return (-EBADF);
 	}
